@@ -441,9 +441,10 @@ def replay_main(path):
         print(f"  rule={rp['rule']} site={site} detail={hit[0][1]}")
         print(f"  digest={'same' if digest == rp['digest'] else 'DIFFERENT'} exact={'yes' if same else 'no'}")
         if os.environ.get("VERIF_TRACE"):
-            for e in res.log:
-                if e[4] != "idle":
-                    print("   ", e)
+            from sim import trace
+
+            for ln in trace.render(res.log):
+                print("   ", ln[:400])
         return 1
     print(f"replay of {path}: rule {rp['rule']} did not fail (digest {'same' if digest == rp['digest'] else 'different'})")
     return 0
